@@ -26,6 +26,11 @@ type SOp struct {
 type SCase struct {
 	Prop string `json:"prop"`
 	Ops  []SOp  `json:"ops"`
+	// wide scenario (c15_wide.go): Wide > 0 = number of slabs pending in ONE commit
+	Wide int  `json:"wide,omitempty"`
+	WF   int  `json:"wf,omitempty"` // 1-based ledger write of the first commit that fails (0 = none)
+	WK   bool `json:"wk,omitempty"` // first commit is NondeterministicFastCommit
+	WN   int  `json:"wn,omitempty"` // workers selector
 }
 
 var c15Universe = func() []atree.SlabID {
@@ -401,6 +406,22 @@ func init() {
 		ID:  "C15",
 		New: func() any { return &SCase{} },
 		Gen: func(t *rapid.T) any {
+			// one case in 160 (thorough: in 24): a single commit of more than 2^16 pending slabs
+			wideEvery := 160
+			if thorough() {
+				wideEvery = 24
+			}
+			if rapid.IntRange(0, wideEvery-1).Draw(t, "wide?") == wideEvery/2+3 { // (rapid favours small and boundary values: the selector avoids them)
+				w := rapid.SampledFrom([]int{1<<16 - 1, 1 << 16, 1<<16 + 1, 1<<16 + 2, 1<<16 + 4097, 1<<17 + 1}).Draw(t, "wide")
+				if rapid.Bool().Draw(t, "wide+") {
+					w = 1<<16 + rapid.IntRange(1, 9000).Draw(t, "wideN")
+				}
+				c := &SCase{Prop: "C15", Wide: w, WK: rapid.Bool().Draw(t, "wk"), WN: rapid.IntRange(0, 31).Draw(t, "wn")}
+				if rapid.IntRange(0, 2).Draw(t, "wf?") > 0 {
+					c.WF = rapid.IntRange(1, w).Draw(t, "wf")
+				}
+				return c
+			}
 			n := rapid.IntRange(1, 60).Draw(t, "n")
 			if thorough() {
 				n = rapid.IntRange(1, 150).Draw(t, "n2")
@@ -427,7 +448,12 @@ func init() {
 			}
 			return c
 		},
-		Run: func(c any) (*CaseStats, error) { return runC15(c.(*SCase), nil) },
+		Run: func(c any) (*CaseStats, error) {
+			if c.(*SCase).Wide > 0 {
+				return runC15Wide(c.(*SCase))
+			}
+			return runC15(c.(*SCase), nil)
+		},
 		Nontrivial: func(s *CaseStats) bool {
 			return s.Has("commit_with_changes") && s.Has("remove") && (s.Has("drop_with_pending") || s.Has("failed_commit"))
 		},
